@@ -60,6 +60,27 @@ type Module interface {
 	Final(w *World)
 }
 
+// FaultGen is implemented by modules that inject node-level faults of their own kinds
+// (exports, parameter experiments, ...): called once per generated block.
+type FaultGen interface {
+	GenFaults(w *World, rng *Rand) []Fault
+}
+
+// FaultHandler receives, after the block's commit, every fault of the block whose kind the
+// engine itself does not implement.
+type FaultHandler interface {
+	OnFault(w *World, f Fault)
+}
+
+// KV is one named observation (a query and its rendered response).
+type KV struct{ K, V string }
+
+// Querier is implemented by workload modules that can render the queries about the durable
+// user-visible objects they know of, against any node (source or re-imported chain).
+type Querier interface {
+	DurableQueries(w *World, n *Node) []KV
+}
+
 // Base provides no-op defaults for Module.
 type Base struct{}
 
